@@ -135,3 +135,32 @@ Example C13_example_applies :
 Proof.
   split; [exact ex13_theorem_applies|]. intros s' outs w' E. exact (proj2 (ex13_all_freed s' outs w' E)).
 Qed.
+
+(* ---- the same over the third layer of client calls (HHist3: op3 / step3 / run_hist3 - the
+   uninitialised-value constructors and setters, cbor_move and its idioms, intermediate_decref, the
+   typed serializers, predicates and getters - which also embeds the calls of the two earlier layers) ---- *)
+From CB Require Import HHist2 HHist3 HHist3_proofs.
+Theorem C13_any_run3_trace_ok : forall refuse L ops s' outs w',
+  run_hist3 refuse L ops s3_0 [] world0 = Ret (s', outs) w' ->
+  trace_ok (rev (trace w')) /\
+  (forall p, heap w' p <> None <-> In p (returned_in (rev (trace w'))) /\ ~ In p (released_in (rev (trace w')))).
+Proof. exact HTrace_proofs.C13_any_run3_trace_ok. Qed.
+Print Assumptions C13_any_run3_trace_ok.
+Theorem C13_history3_trace_ok : forall refuse L ops,
+  legal_history3 refuse L ops s3_0 own0 world0 ->
+  exists s' outs w', run_hist3 refuse L ops s3_0 [] world0 = Ret (s', outs) w' /\
+    trace_ok (rev (trace w')) /\
+    NoDup (released_in (rev (trace w'))) /\ NoDup (returned_in (rev (trace w'))) /\
+    (forall p, In p (released_in (rev (trace w'))) -> In p (returned_in (rev (trace w')))).
+Proof. exact HTrace_proofs.C13_history3_trace_ok. Qed.
+Print Assumptions C13_history3_trace_ok.
+(* non-vacuity: the legal third-layer history of HHist3_proofs (ex3_ops) *)
+Example C13_example3 :
+  exists s' outs w', run_hist3 HRef_proofs.never 8 ex3_ops s3_0 [] world0 = Ret (s', outs) w' /\
+    trace_ok (rev (trace w')) /\ trace_okb (rev (trace w')) = true.
+Proof.
+  destruct (C13_history3_trace_ok HRef_proofs.never 8 ex3_ops) as (s' & outs & w' & E & T & _).
+  - exact ex3_rules.
+  - exists s', outs, w'. split; [exact E|]. split; [exact T|]. apply trace_okb_iff. exact T.
+Qed.
+
